@@ -2,8 +2,10 @@ package rules
 
 import (
 	"go/ast"
+	"go/constant"
 	"go/token"
 	"go/types"
+	"math"
 
 	"sopverif/eng"
 )
@@ -124,101 +126,116 @@ func runC18(c *eng.Ctx) {
 		g := p.GraphOf(f)
 		minInt := p.Field(pkgHTypes, "Settings", "ExecutionMinInterval")
 		burstF := p.Field(pkgHTypes, "Settings", "ExecutionBurst")
-		var limitVar, burstVar types.Object
-		for _, call := range callsDeep(info, f.Decl.Body, func(o types.Object, _ *ast.CallExpr) bool {
+		settings := p.Field(pkgCfg, "HookConfig", "Settings")
+		isNewLimiter := func(o types.Object, _ *ast.CallExpr) bool {
 			return eng.IsPkgFunc(o, "golang.org/x/time/rate", "NewLimiter")
-		}) {
-			if len(call.Args) == 2 {
-				limitVar, burstVar = eng.SelObj(info, call.Args[0]), eng.SelObj(info, call.Args[1])
-			}
 		}
-		if limitVar == nil || burstVar == nil {
-			r3.Bad(f.Key+" NewLimiter", f.Decl.Pos(), "the limiter is not created with rate.NewLimiter(limitVar, burstVar)")
-		} else {
-			okLimit, okBurst := true, true
-			nL, nB := 0, 0
-			for _, n := range g.Nodes {
-				as, ok := n.Node.(*ast.AssignStmt)
-				if !ok || len(as.Lhs) != 1 || len(as.Rhs) != 1 {
+		// every return gives a limiter made by rate.NewLimiter(limit, burst)
+		type site struct {
+			n    *eng.GNode
+			call *ast.CallExpr
+		}
+		var sites []site
+		okRet := true
+		for _, n := range g.Nodes {
+			if ms := g.CallsAt(n, isNewLimiter); len(ms) == 1 && len(ms[0].Call.Args) == 2 {
+				sites = append(sites, site{n, ms[0].Call})
+			}
+			if ret, isR := eng.IsReturn(n); isR {
+				if len(ret.Results) != 1 {
+					okRet = false
 					continue
 				}
-				switch eng.SelObj(info, as.Lhs[0]) {
-				case limitVar:
-					nL++
-					rhs := ast.Unparen(as.Rhs[0])
-					if o := eng.SelObj(info, rhs); o != nil && o.Name() == "Inf" {
-						continue
-					}
-					cl, isC := rhs.(*ast.CallExpr)
-					if !isC || !eng.IsPkgFunc(eng.CalleeOf(info, cl), "golang.org/x/time/rate", "Every") || !eng.IsField(info, cl.Args[0], minInt) {
-						okLimit = false
-						continue
-					}
-					nz := g.FactEdge(func(fc eng.Fact) bool {
-						x, y, eq, isEq := eng.EqAtom(fc)
-						v, isK := eng.ConstInt(info, y)
-						return isEq && !eq && eng.IsField(info, x, minInt) && isK && v == 0
-					})
-					if !g.OnlyVia(n, nil, nz) {
-						okLimit = false
-					}
-				case burstVar:
-					nB++
-					rhs := ast.Unparen(as.Rhs[0])
-					if v, isK := eng.ConstInt(info, rhs); isK {
-						if v != 1 {
-							okBurst = false
-						}
-						continue
-					}
-					if !eng.IsField(info, rhs, burstF) {
-						okBurst = false
-						continue
-					}
-					nz := g.FactEdge(func(fc eng.Fact) bool {
-						x, y, eq, isEq := eng.EqAtom(fc)
-						v, isK := eng.ConstInt(info, y)
-						return isEq && !eq && eng.IsField(info, x, burstF) && isK && v == 0
-					})
-					if !g.OnlyVia(n, nil, nz) {
-						okBurst = false
-					}
+				cl, isC := ast.Unparen(resolveLocal(info, f.Decl.Body, ret.Results[0])).(*ast.CallExpr)
+				if !isC || !isNewLimiter(eng.CalleeOf(info, cl), cl) {
+					okRet = false
 				}
 			}
-			// "exactly when": with settings present and a non-zero value the assignment cannot be bypassed
-			var newLim *eng.GNode
-			for _, n := range g.Nodes {
-				if len(g.CallsAt(n, func(o types.Object, _ *ast.CallExpr) bool {
-					return eng.IsPkgFunc(o, "golang.org/x/time/rate", "NewLimiter")
-				})) > 0 {
-					newLim = n
-				}
-			}
-			settings := p.Field(pkgCfg, "HookConfig", "Settings")
-			noSettings := g.FactEdge(func(fc eng.Fact) bool {
-				x, y, eq, isEq := eng.EqAtom(fc)
-				return isEq && eq && eng.IsField(info, x, settings) && eng.IsNil(info, y)
-			})
-			bypass := func(fld *types.Var, target types.Object) bool {
-				zero := g.FactEdge(func(fc eng.Fact) bool {
+		}
+		if len(sites) == 0 || !okRet {
+			r3.Bad(f.Key+" NewLimiter", f.Decl.Pos(), "the limiter is not created with rate.NewLimiter(limit, burst) on every path")
+		} else {
+			// a scenario fixes whether settings are present and whether the configured value is zero; the argument
+			// handed to NewLimiter in that scenario must be the documented one at every reachable creation
+			scenario := func(hasSettings bool, fld *types.Var, nonZero bool) func(eng.Fact) bool {
+				return func(fc eng.Fact) bool {
 					x, y, eq, isEq := eng.EqAtom(fc)
-					v, isK := eng.ConstInt(info, y)
-					return isEq && eq && eng.IsField(info, x, fld) && isK && v == 0
-				})
-				reach := g.Reach(eng.Query{FromEntry: true, AvoidEdge: func(e *eng.GEdge) bool { return zero(e) || noSettings(e) }, AvoidNode: func(n *eng.GNode) bool {
-					as, ok := n.Node.(*ast.AssignStmt)
-					return ok && len(as.Lhs) == 1 && eng.SelObj(info, as.Lhs[0]) == target && eng.MentionsField(info, as.Rhs[0], fld, false)
-				}})
-				return newLim != nil && reach[newLim]
+					if !isEq {
+						return false
+					}
+					for i := 0; i < 2; i++ {
+						if eng.IsField(info, x, settings) && eng.IsNil(info, y) {
+							return eq == !hasSettings
+						}
+						if hasSettings && eng.IsField(info, x, fld) {
+							if k, isK := eng.ConstInt(info, y); isK && k == 0 {
+								return eq == !nonZero
+							}
+						}
+						x, y = y, x
+					}
+					return false
+				}
 			}
-			if bypass(minInt, limitVar) {
-				okLimit = false
+			isInf := func(e ast.Expr) bool {
+				if e == nil {
+					return false
+				}
+				tv, has := info.Types[e]
+				if !has || tv.Value == nil {
+					return false
+				}
+				fv, _ := constant.Float64Val(constant.ToFloat(tv.Value))
+				return fv == math.MaxFloat64
 			}
-			if bypass(burstF, burstVar) {
-				okBurst = false
+			isOne := func(e ast.Expr) bool {
+				if e == nil {
+					return false
+				}
+				k, isK := eng.ConstInt(info, e)
+				return isK && k == 1
 			}
-			r3.Check(okLimit && nL >= 2, f.Key+" limit", f.Decl.Pos(), "rate.Inf by default, rate.Every(ExecutionMinInterval) when non-zero", "the limit is not `rate.Every(executionMinInterval)` exactly when an interval is configured (and unlimited otherwise)")
-			r3.Check(okBurst && nB >= 2, f.Key+" burst", f.Decl.Pos(), "1 by default, ExecutionBurst when non-zero", "the burst is not `executionBurst` exactly when configured (and 1 otherwise)")
+			isEvery := func(e ast.Expr) bool {
+				if e == nil {
+					return false
+				}
+				cl, isC := ast.Unparen(e).(*ast.CallExpr)
+				return isC && len(cl.Args) == 1 && eng.IsPkgFunc(eng.CalleeOf(info, cl), "golang.org/x/time/rate", "Every") && eng.IsField(info, resolveLocal(info, f.Decl.Body, cl.Args[0]), minInt)
+			}
+			isBurstField := func(e ast.Expr) bool {
+				return e != nil && eng.IsField(info, resolveLocal(info, f.Decl.Body, e), burstF)
+			}
+			decide := func(arg int, fld *types.Var, dflt, configured func(ast.Expr) bool) bool {
+				okAll := true
+				for _, sc := range []struct {
+					hasSettings, nonZero bool
+					want                 func(ast.Expr) bool
+				}{{false, false, dflt}, {true, false, dflt}, {true, true, configured}} {
+					assumed := scenario(sc.hasSettings, fld, sc.nonZero)
+					created := false
+					for _, st := range sites {
+						vals, reachable, ok := reachingValues(g, info, f.Decl.Body, st.n, st.call.Args[arg], assumed)
+						if !reachable {
+							continue
+						}
+						created = true
+						if !ok || len(vals) == 0 {
+							okAll = false
+						}
+						for _, v := range vals {
+							if !sc.want(v) {
+								okAll = false
+							}
+						}
+					}
+					if !created {
+						okAll = false
+					}
+				}
+				return okAll
+			}
+			r3.Check(decide(0, minInt, isInf, isEvery), f.Key+" limit", f.Decl.Pos(), "rate.Inf by default, rate.Every(ExecutionMinInterval) when non-zero", "the limit is not `rate.Every(executionMinInterval)` exactly when an interval is configured (and unlimited otherwise)")
+			r3.Check(decide(1, burstF, isOne, isBurstField), f.Key+" burst", f.Decl.Pos(), "1 by default, ExecutionBurst when non-zero", "the burst is not `executionBurst` exactly when configured (and 1 otherwise)")
 		}
 		// who stores RateLimiter
 		limiter := p.Field(pkgHook, "Hook", "RateLimiter")
